@@ -170,6 +170,15 @@ def run_case(ck, case, reqs, pending):
     solver_tol = {None: 1e-8, "lsq": 1e-4, "lsq_linear": 1e-5}[method]
     smin = float(svt[-1])
     tol = (2 * coef_tol * math.sqrt(n) * float(np.max(tau)) + solver_tol) / smin
+    if method == "lsq_linear":
+        # this back-end solves the bordered normal equations (add_mean_one_before): its error is governed by their conditioning — the
+        # same rule as in C03
+        N_ = np.block([[Atrue.T @ Atrue, np.ones((n, 1))], [np.ones((1, n)), np.zeros((1, 1))]])
+        s2_ = np.linalg.svd(N_, compute_uv=False)
+        tol = max(tol, (2 * coef_tol * n * float(np.max(tau)) + 1e-6) / float(s2_[-1]))
+        # scipy's trust-region solver stops when the relative change of the cost falls below its default 1e-10, i.e. at a relative
+        # step of about 1e-5 of the solution's norm (measured: 1.6e-4 at sigma_min 0.077, |tau| 7.6)
+        tol = max(tol, 1e-5 * float(np.linalg.norm(tau)) / smin)
     ck.dist["worst_error_over_tolerance"] = max(ck.dist.get("worst_error_over_tolerance", 0.0), (err / tol) if not ph.d2 else 0.0)
     if err > tol:
         sig = SIG_D2 if ph.d2 else None
